@@ -121,6 +121,9 @@ end Lts
 /-! ## Histories -/
 namespace Hist
 
+inductive DKind | past | future | zero
+  deriving DecidableEq, Repr
+
 inductive Op
   /-- `Session.Close` -/
   | close
@@ -145,6 +148,11 @@ inductive Op
   | peerGarbage
   /-- `SetCloseDeadline` with a deadline that then passes -/
   | deadline
+  /-- `SetCloseDeadline(t)` with an explicit time: far in the past, far in the future, or the
+  zero `time.Time` (an expired context but *no* read deadline on the connection) -/
+  | setDeadline (k : DKind)
+  /-- `go s.Serve(h)` (when the history did not start with `Serve` running) -/
+  | startServe
   deriving DecidableEq, Repr
 
 /-- result of an operation -/
@@ -169,10 +177,14 @@ structure St where
   inClosed : Bool
   serve : Ret
   wire : List Item
+  /-- the input context in force has expired: the LAST `SetCloseDeadline` named a time that is
+  not in the future (every call replaces the context and cancels the previous one) -/
+  ctxPast : Bool
   deriving DecidableEq, Repr
 
 def init (serve : Bool) : St :=
-  { outClosed := false, inClosed := false, serve := if serve then .running else .notStarted, wire := [] }
+  { outClosed := false, inClosed := false, serve := if serve then .running else .notStarted, wire := [],
+    ctxPast := false }
 
 /-- `closeSession` -/
 def closeOut (s : St) : St :=
@@ -184,16 +196,30 @@ def serveReturns (s : St) (r : Ret) : St :=
   { closeOut s with inClosed := true, serve := r }
 
 def step (s : St) : Op → St × Res
+  | .setDeadline k =>
+    let s' := { s with ctxPast := k != .future }
+    -- a read deadline in the past interrupts the read `Serve` is blocked in
+    if s.serve == .running && k == .past then (serveReturns s' .deadline, .ok) else (s', .ok)
+  | .startServe =>
+    if s.serve == .notStarted then
+      (if s.ctxPast then (serveReturns s .deadline, .ok) else ({ s with serve := .running }, .ok))
+    else (s, .na)
   | .close => (closeOut s, .ok)
   | .tx => if s.outClosed then (s, .closedOut) else ({ s with wire := s.wire ++ [.el] }, .ok)
   | .read => if s.inClosed then (s, .closedIn) else (s, .na)
   | op =>
     if s.serve != .running then (s, .na) else
+    -- `Serve` looks at the input context at the top of its loop, i.e. after the white space
+    -- that precedes the peer's next element and before that element is read: with an expired
+    -- context (zero-time deadline set while it was blocked) it returns without handling it
+    -- (garbage merges with that white space into one bad token and is seen first)
+    if s.ctxPast && op != .peerGarbage then (serveReturns s .deadline, .ok) else
     match op with
     | .peerStanza => (s, .ok)
     | .peerStanzaReply =>
       -- the handler's first EncodeToken fails on a closed output stream; it returns that error
-      if s.outClosed then (serveReturns s .closedOut, .ok) else ({ s with wire := s.wire ++ [.el] }, .ok)
+      if s.outClosed then (serveReturns s .closedOut, .ok)
+      else ({ s with wire := s.wire ++ [.el] }, .ok)
     | .handlerErr => (serveReturns s .handlerErr, .ok)
     | .handlerStreamErr => (serveReturns s .streamErr, .ok)
     | .peerStreamErr => (serveReturns s .peerStreamErr, .ok)
@@ -212,5 +238,58 @@ def run : St → List Op → St × List Res
 def closeCount (w : List Item) : Nat := (w.filter (· == .close)).length
 
 end Hist
+
+/-! ## Histories with a failing connection write
+
+`Close` and the transmit calls on a session whose `n`-th connection write fails after a short
+write (no `Serve`).  `closeSession` sets the closed bit *before* it writes the tag, so a failed
+close is still a close: the tag is attempted once.  The `xml.Encoder`'s buffered writer keeps
+its first error: after a failed flush every transmit call fails without writing. -/
+namespace WHist
+
+inductive Op | close | tx
+  deriving DecidableEq, Repr
+
+inductive Res | ok | closedOut | ioErr
+  deriving DecidableEq, Repr
+
+inductive Item | el | close | cut | closeCut
+  deriving DecidableEq, Repr
+
+structure St where
+  outClosed : Bool
+  encDead : Bool
+  writes : Nat
+  closeAttempts : Nat
+  wire : List Item
+  deriving DecidableEq, Repr
+
+def init : St := ⟨false, false, 0, 0, []⟩
+
+/-- `failAt = some n`: the connection write number `n` (from 0) is cut short and fails -/
+def step (failAt : Option Nat) (s : St) : Op → St × Res
+  | .close =>
+    if s.outClosed then (s, .ok)
+    else if failAt = some s.writes then
+      ({ s with outClosed := true, writes := s.writes + 1, closeAttempts := s.closeAttempts + 1,
+                wire := s.wire ++ [.closeCut] }, .ioErr)
+    else
+      ({ s with outClosed := true, writes := s.writes + 1, closeAttempts := s.closeAttempts + 1,
+                wire := s.wire ++ [.close] }, .ok)
+  | .tx =>
+    if s.outClosed then (s, .closedOut)
+    else if s.encDead then (s, .ioErr)
+    else if failAt = some s.writes then
+      ({ s with encDead := true, writes := s.writes + 1, wire := s.wire ++ [.cut] }, .ioErr)
+    else ({ s with writes := s.writes + 1, wire := s.wire ++ [.el] }, .ok)
+
+def run (failAt : Option Nat) : St → List Op → St × List Res
+  | s, [] => (s, [])
+  | s, op :: ops =>
+    let r := step failAt s op
+    let rest := run failAt r.1 ops
+    (rest.1, r.2 :: rest.2)
+
+end WHist
 
 end XmppModel.Close
